@@ -41,3 +41,13 @@ Example C11_example :
   f_DataIdentifier_SetUint16 7 7 7 0x2716 = (0x2010, 0x4, 0x2) /\ in_range 0x2010 0x4 0x2 = true /\
   f_DataIdentifier_Uint16 0x2010 0x4 0x2 = 0x2016.
 Proof. repeat split. Qed.
+
+(* The packet header path: MTData2Packet.Identifier as REGENERATED statement by statement from mtdata2.go decodes the two
+   header bytes through the generated SetUint16 - the same function the sweeps above characterise - for every packet *)
+Require Import Base.Bytes Base.GoBytes Gen.Bytes Tie.BytesAgree.
+Theorem C11_packet_header_uses_the_same_decoding : forall p,
+  g_MTData2Packet_Identifier p =
+  if (2 <=? length p)%nat
+  then Val (Gen.Funcs.f_DataIdentifier_SetUint16 0 0 0 (Z.of_N (be16 (nthb p 0) (nthb p 1))))
+  else Pan.
+Proof. exact packet_identifier_agrees. Qed.
